@@ -15,6 +15,10 @@
 //                          sweep starts on a handle last used by another coder)   FW (whole-buffer run on a brand-new stream,
 //                          compared with the reference)   K:<p>:<calls> (run S:<p> for <calls> calls and abandon it mid-stream;
 //                          not compared; the next run re-initialises the abandoned handle)
+//   strrt <struct-chain>
+//           -> "ok <string>" if lzma_str_to_filters(lzma_str_from_filters(f)) = f field by field for the flag sets ENCODER,
+//              ENCODER|GETOPT_LONG, ENCODER|NO_SPACES|GETOPT_LONG (all options) and DECODER (decoder-relevant options);
+//              <string> is the ENCODER|NO_SPACES|GETOPT_LONG form (no blanks), usable as "@<string>" chain. Else "diff ...".
 //   small-coder ops (tie to the Lean model; see c06_small.c): vlid, vlie, simple, delta, bufcpy
 //
 // Coder specs (':' separated; a filter chain is always the last field):
@@ -486,6 +490,59 @@ static void sweep_one(sweep *s, const char *spec)
 	c06_slicing_free(&sl);
 }
 
+static uint32_t bcj_start(const lzma_filter *f) { return f->options ? ((const lzma_options_bcj *)f->options)->start_offset : 0; }
+
+// Field-by-field comparison of two chains; `enc` = all encoder options, else only what a decoder needs.
+static bool chains_equal(const lzma_filter *a, const lzma_filter *b, bool enc, char *why, size_t whysz)
+{
+	for (int i = 0; ; ++i) {
+		if (a[i].id != b[i].id) { snprintf(why, whysz, "f%d.id %llx/%llx", i, (unsigned long long)a[i].id, (unsigned long long)b[i].id); return false; }
+		if (a[i].id == LZMA_VLI_UNKNOWN) return true;
+		if (a[i].id == LZMA_FILTER_LZMA1 || a[i].id == LZMA_FILTER_LZMA2) {
+			const lzma_options_lzma *x = a[i].options, *y = b[i].options;
+			if (x == NULL || y == NULL) { snprintf(why, whysz, "f%d.options NULL", i); return false; }
+#define CMPF(fld) if ((uint64_t)x->fld != (uint64_t)y->fld) { snprintf(why, whysz, "f%d." #fld " %llu/%llu", i, (unsigned long long)x->fld, (unsigned long long)y->fld); return false; }
+			CMPF(dict_size)
+			// a decoder needs lc/lp/pb only for LZMA1 (LZMA2 carries them in the stream; LZMA_STR_DECODER omits them)
+			if (enc || a[i].id == LZMA_FILTER_LZMA1) { CMPF(lc) CMPF(lp) CMPF(pb) }
+			if (enc) { CMPF(mode) CMPF(nice_len) CMPF(mf) CMPF(depth) }
+#undef CMPF
+			if (y->preset_dict != NULL) { snprintf(why, whysz, "f%d.preset_dict", i); return false; }
+		} else if (a[i].id == LZMA_FILTER_DELTA) {
+			const lzma_options_delta *x = a[i].options, *y = b[i].options;
+			if (x == NULL || y == NULL || x->dist != y->dist || x->type != y->type) { snprintf(why, whysz, "f%d.delta", i); return false; }
+		} else {
+			if (bcj_start(&a[i]) != bcj_start(&b[i])) { snprintf(why, whysz, "f%d.start %u/%u", i, bcj_start(&a[i]), bcj_start(&b[i])); return false; }
+		}
+	}
+}
+
+static void op_strrt(const char *spec)
+{
+	chain c;
+	if (!parse_chain(spec, &c) || c.from_str) { printf("bad-chain\n"); return; }
+	static const uint32_t flagsets[4] = { LZMA_STR_ENCODER, LZMA_STR_ENCODER | LZMA_STR_GETOPT_LONG,
+		LZMA_STR_ENCODER | LZMA_STR_NO_SPACES | LZMA_STR_GETOPT_LONG, LZMA_STR_DECODER };
+	char keep[1024] = "";
+	for (int k = 0; k < 4; ++k) {
+		char *str = NULL;
+		lzma_ret r = lzma_str_from_filters(&str, c.f, flagsets[k], NULL);
+		if (r != LZMA_OK) { printf("diff from_filters(flags=0x%x)=%d\n", flagsets[k], (int)r); return; }
+		lzma_filter back[LZMA_FILTERS_MAX + 1];
+		int pos = 0;
+		const char *msg = lzma_str_to_filters(str, &pos, back, LZMA_STR_ALL_FILTERS, NULL);
+		if (msg != NULL) { printf("diff to_filters(flags=0x%x) rejects its own output at %d: %s: ", flagsets[k], pos, msg); for (char *q = str; *q; ++q) putchar(*q == ' ' ? '_' : *q); printf("\n"); free(str); return; }
+		char why[128];
+		bool same = chains_equal(c.f, back, k < 3, why, sizeof(why));
+		if (!same) { printf("diff flags=0x%x %s : ", flagsets[k], why); for (char *q = str; *q; ++q) putchar(*q == ' ' ? '_' : *q); printf("\n"); }
+		if (k == 2) snprintf(keep, sizeof(keep), "%s", str);
+		lzma_filters_free(back, NULL);
+		free(str);
+		if (!same) return;
+	}
+	printf("ok %s\n", keep);
+}
+
 int main(void)
 {
 	hp_line l = {0};
@@ -617,6 +674,8 @@ int main(void)
 			if (c.block_filters_live) lzma_filters_free(c.block_filters, NULL);
 			coder_free(&c);
 			free(in);
+		} else if (!strcmp(op, "strrt") && l.ntok == 2) {
+			op_strrt(l.tok[1]);
 		} else if (c06_small_op(&l)) {
 			// handled
 		} else {
